@@ -10,15 +10,22 @@
   R4  cross-language atomicity: a stored procedure that issues START TRANSACTION (implicit commit of the caller's transaction) is never
       CALLed on an open Transaction after a write; procedures CALLed from inside other procedures contain no transaction statements;
       every path through a procedure that starts a transaction ends it exactly once (COMMIT or ROLLBACK)
-  R5  inside Transaction a failing statement aborts the transaction: every `try` that encloses a statement execution (cursor.execute /
-      executemany, directly or through a helper of the class) re-raises on every handler path; no Transaction method is retried or
-      sleeps-and-retries (a statement re-issued inside an open transaction runs after InnoDB may already have rolled the transaction back)
+  R5  inside Transaction a failing statement aborts the transaction: every `try` that encloses a statement execution re-raises on every
+      handler path (no `return`/`break`/`continue` in its `finally`, no contextlib.suppress around it); no statement-executing function
+      is retried (decorator) or sleeps-and-retries (a statement re-issued inside an open transaction runs after InnoDB may already have
+      rolled the transaction back).  "Executes a statement" is a flow fact (engines/c27facts.ExecFlow): `cursor.execute/executemany/
+      callproc` called directly, through a local alias, through a parameter of a helper method / module-level function that receives
+      the cursor or the bound method (`await self._execute(cursor.execute, sql, args)`), through a lambda / nested def / partial, or by
+      calling another executing unit; a cursor or bound method handed to code outside the module is declined.  The message names an
+      abstract error (truth table of R7) for which the handler does not raise
   R6  one Database operation == one transaction: every Database method opens at most one transaction per call (one `self.start()` or one
       call of another transaction-opening method), never inside a loop; the array of execute_many reaches a single Transaction.execute_many
   R7  the error that reaches the retry classifier is the one the driver raised (DB layer, gear/gear/database.py): every `except`
       handler between the retry wrapper and the statements is evaluated over the finite abstract domain of the caught error
       {OperationalError, InternalError} x {code in / not in the retry table} + other MySQL error + non-MySQL error (tests on the
-      classifier, isinstance and `exc.args[0]` are interpreted on that domain, other tests are free booleans): on every path a
+      classifier, isinstance and `exc.args[0]` are interpreted on that domain, other tests are free booleans; every error code a test
+      mentions is its own class of the domain; boolean helpers on the exception -- module-level functions, methods, imported from
+      another repository module -- and helpers called as statements that may raise are inlined into the table first): on every path a
       retryable error leaves the handler as the same exception or as another retryable one, a non-retryable one is never replaced by
       an error the classifier accepts, and a retryable one is not swallowed; no statement of the layer fabricates an error the
       classifier accepts outside a handler.  Functions only ever scheduled as background tasks are outside the retry path.
@@ -32,7 +39,7 @@ import ast
 import builtins
 from typing import Dict, FrozenSet, List, Optional, Set, Tuple
 
-from engines import absdom, pyfacts as pf
+from engines import absdom, c27facts as cf, pyfacts as pf
 from engines import sqlfront as sf
 from engines.common import AnalysisError, Ctx
 from engines.sqlast import N, text
@@ -43,7 +50,7 @@ META = dict(
          'retry vs. transaction at every retried site, exit discipline of Transaction, and the SQL-side rule that procedures which start their own transaction '
          'cannot split a Python transaction.',
     note='Trusted: Python AST/CFG, SQL parser; MySQL implicit-commit semantics of START TRANSACTION; aiomysql commit/rollback.',
-    technique='static analysis: predicate truth table + decorator nesting order + CFG checks + cross-language call rule over the SQL program',
+    technique='static analysis: predicate truth table over an abstract error domain (helpers inlined) + may-flow of cursor/execute callables through helpers + decorator nesting order + CFG checks + cross-language call rule over the SQL program',
     design_ref='DESIGN.md §3 C27',
 )
 
@@ -285,61 +292,133 @@ def r4(ctx: Ctx) -> None:
     ctx.unit('call_sites', n_tx + n_db)
 
 
-def _always_raises(stmts: List[ast.stmt]) -> bool:
-    for st in stmts:
-        if isinstance(st, ast.Raise):
-            return True
-        if isinstance(st, ast.If) and st.orelse and _always_raises(st.body) and _always_raises(st.orelse):
-            return True
-        if isinstance(st, (ast.With, ast.AsyncWith)) and _always_raises(st.body):
-            return True
+EXEC_ATTRS = cf.EXEC_ATTRS
+BACKOFF_NAMES = ('sleep_before_try', 'sleep', 'retry_transient_errors', 'retry_transient_mysql_errors', 'retry_all_errors', 'retry_long_running')
+PLAIN_DECORATORS = ('staticmethod', 'classmethod', 'wraps', 'abstractmethod', 'overload')
+BENIGN_CURSOR_CALLEES = ('debug', 'info', 'warning', 'error', 'exception', 'log', 'print', 'repr', 'str', 'id', 'type', 'isinstance')
+
+
+def _swallowing_finally(tr: ast.Try) -> Optional[ast.stmt]:
+    """A `return` (or a `break`/`continue` that leaves the finally block) inside `finally` discards the exception in flight."""
+    def rec(stmts: List[ast.stmt], in_loop: bool) -> Optional[ast.stmt]:
+        for st in stmts:
+            if isinstance(st, ast.Return) or (isinstance(st, (ast.Break, ast.Continue)) and not in_loop):
+                return st
+            if isinstance(st, (ast.FunctionDef, ast.AsyncFunctionDef, ast.ClassDef)):
+                continue
+            loop = in_loop or isinstance(st, (ast.For, ast.AsyncFor, ast.While))
+            for fld in ('body', 'orelse', 'finalbody'):
+                b = getattr(st, fld, None)
+                if isinstance(b, list) and b and isinstance(b[0], ast.stmt):
+                    r = rec(b, loop)
+                    if r is not None:
+                        return r
+            for h in getattr(st, 'handlers', []) or []:
+                r = rec(h.body, loop)
+                if r is not None:
+                    return r
+        return None
+    return rec(tr.finalbody, False)
+
+
+def _stored_then_raised(m: pf.Module, t: ast.Try, h: ast.ExceptHandler) -> bool:
+    """`except E as exc: saved = exc` (nothing else that leaves the handler) with an unconditional `raise saved` as the next effective
+    statement after the `try`: the error still propagates on every path."""
+    if not h.name:
+        return False
+    saved: Set[str] = set()
+    for st in h.body:
+        if isinstance(st, ast.Assign) and len(st.targets) == 1 and isinstance(st.targets[0], ast.Name) and isinstance(st.value, ast.Name) and st.value.id == h.name:
+            saved.add(st.targets[0].id)
+        elif not isinstance(st, (ast.Expr, ast.Pass)):
+            return False
+    if not saved or t.finalbody or t.orelse or len(t.handlers) != 1:
+        return False
+    parent = m.parents().get(t)
+    for fld in ('body', 'orelse', 'finalbody'):
+        blk = getattr(parent, fld, None)
+        if isinstance(blk, list) and t in blk:
+            for st in blk[blk.index(t) + 1:]:
+                if isinstance(st, (ast.Expr, ast.Pass)) and not any(isinstance(x, ast.Await) for x in ast.walk(st)):
+                    continue
+                return isinstance(st, ast.Raise) and isinstance(st.exc, ast.Name) and st.exc.id in saved
     return False
 
 
-EXEC_ATTRS = ('execute', 'executemany', 'callproc')
+def _retry_decorator(flow: 'cf.ExecFlow', m: pf.Module, d: ast.expr) -> Optional[bool]:
+    """True: the decorator re-invokes / retries the function; False: known not to; None: unknown."""
+    name = pf.dotted(d.func) if isinstance(d, ast.Call) else pf.dotted(d)
+    last = (name or '').split('.')[-1]
+    if 'retry' in last.lower() or 'retri' in last.lower():
+        return True
+    if last in PLAIN_DECORATORS:
+        return False
+    if name and '.' not in name:
+        for st in m.tree.body:
+            if isinstance(st, (ast.FunctionDef, ast.AsyncFunctionDef)) and st.name == name:
+                return True if any(isinstance(x, (ast.While, ast.For, ast.AsyncFor)) for x in ast.walk(st)) else None
+    return None
 
 
 def r5(ctx: Ctx, m: pf.Module) -> None:
-    tc = m.cls('Transaction')
-    meths = {f.name: f for f in tc.body if isinstance(f, (ast.AsyncFunctionDef, ast.FunctionDef))}
-    # methods that (transitively, within the class) execute a statement on a cursor
-    def direct(fn) -> bool:
-        return any(isinstance(c, ast.Call) and isinstance(c.func, ast.Attribute) and c.func.attr in EXEC_ATTRS and 'cursor' in pf.nsrc(c.func.value) for c in ast.walk(fn)) or \
-            any(isinstance(a, ast.Attribute) and a.attr in EXEC_ATTRS and 'cursor' in pf.nsrc(a.value) for a in ast.walk(fn))
-    executing: Set[str] = {n for n, f in meths.items() if direct(f)}
-    changed = True
-    while changed:
-        changed = False
-        for n, f in meths.items():
-            if n not in executing and any(isinstance(c, ast.Call) and isinstance(c.func, ast.Attribute) and pf.nsrc(c.func.value) == 'self' and c.func.attr in executing for c in ast.walk(f)):
-                executing.add(n)
-                changed = True
-    ctx.need(len(executing) >= 7, f'Transaction: only {sorted(executing)} execute statements')
+    tb = _tables(m)
+    flow = cf.ExecFlow(m, 'Transaction', exclude_funcs=('retry_transient_mysql_errors', 'transaction'))
+    # units that issue a statement on the open transaction: executing Transaction methods and the module-level helpers they reach
+    reach: Set[cf.Key] = {k for k in flow.executing if k[0] == 'm'}
+    work = list(reach)
+    while work:
+        k = work.pop()
+        for c in ast.walk(flow.units[k]):
+            if isinstance(c, ast.Call):
+                cal = flow._callee(c, k)
+                if cal is not None and cal in flow.executing and cal not in reach:
+                    reach.add(cal)
+                    work.append(cal)
+    ctx.need(len([k for k in reach if k[0] == 'm']) >= 7, f'Transaction: only {sorted(flow.label(k) for k in reach)} execute statements')
+    ctx.unit('executing_units', len(reach))
+    helper_params = {flow.label(k): sorted(flow.exec_params[k] | flow.cursor_params[k]) for k in reach if flow.exec_params[k] | flow.cursor_params[k]}
+    if helper_params:
+        ctx.extra_cov['c27_execute_helpers'] = helper_params
 
-    def executes(node: ast.AST, aliases: Set[str]) -> bool:
-        for c in ast.walk(node):
-            if isinstance(c, ast.Attribute) and c.attr in EXEC_ATTRS and 'cursor' in pf.nsrc(c.value):
-                return True
-            if isinstance(c, ast.Call) and isinstance(c.func, ast.Attribute) and pf.nsrc(c.func.value) == 'self' and c.func.attr in executing:
-                return True
-            if isinstance(c, ast.Call) and isinstance(c.func, ast.Name) and c.func.id in aliases:
-                return True
-        return False
-
-    for n in sorted(executing):
-        f = meths[n]
-        cons = f'{DB}::Transaction.{n}'
-        ctx.check(not _retried(f), 'R5', cons + '::not retried', 'a Transaction method is wrapped in the retry decorator: the statement would be re-issued on a transaction in an unknown state', m.path, f.lineno)
-        sleeps = [c for c in ast.walk(f) if isinstance(c, ast.Call) and (pf.dotted(c.func) or '').split('.')[-1] in ('sleep_before_try', 'sleep', 'retry_transient_errors', 'retry_transient_mysql_errors')]
+    for k in sorted(reach):
+        f = flow.units[k]
+        n = f.name
+        cons = f'{DB}::{flow.label(k)}'
+        verdicts = [(d, _retry_decorator(flow, m, d)) for d in f.decorator_list]
+        unknown = [pf.nsrc(d) for d, v in verdicts if v is None]
+        retried = [pf.nsrc(d) for d, v in verdicts if v]
+        ctx.check(not retried, 'R5', cons + '::not retried', f'{flow.label(k)} executes statements on the open transaction and is wrapped in `@{retried[0] if retried else ""}`: the statement would be re-issued on a '
+                  'transaction in an unknown state', m.path, f.lineno)
+        ctx.need(not unknown or retried, f'{flow.label(k)}: decorator {unknown} on a statement-executing function is not recognised')
+        sleeps = [c for c in ast.walk(f) if isinstance(c, ast.Call) and ((pf.dotted(c.func) or '').split('.')[-1] in BACKOFF_NAMES
+                                                                          or (isinstance(c.func, ast.Call) and (pf.dotted(c.func.func) or '').split('.')[-1] in BACKOFF_NAMES))]
         ctx.check(not sleeps, 'R5', cons + '::no in-transaction back-off', f'{n} sleeps/retries inside the open transaction (line {sleeps[0].lineno if sleeps else 0}): statement-level retry is not atomic -- after a deadlock or lock '
                   'wait timeout the server has rolled back earlier statements, and the re-issued statement is then committed without them', m.path, f.lineno)
-        # local names bound to a cursor's execute method (`execute = cursor.executemany if many else cursor.execute`)
-        aliases = {t.id for a in ast.walk(f) if isinstance(a, ast.Assign) for t in a.targets if isinstance(t, ast.Name)
-                   and any(isinstance(x, ast.Attribute) and x.attr in EXEC_ATTRS and 'cursor' in pf.nsrc(x.value) for x in ast.walk(a.value))}
-        tries = [t for t in ast.walk(f) if isinstance(t, ast.Try) and t.handlers and executes(ast.Module(body=t.body, type_ignores=[]), aliases)]
-        bad = [t for t in tries if not all(_always_raises(h.body) for h in t.handlers)]
-        ctx.check(not bad, 'R5', cons + '::statement failure aborts', f'{n}: the `try` at line {bad[0].lineno if bad else 0} encloses a statement execution and has a handler path that does not re-raise: a failed '
-                  'statement is swallowed or re-issued inside the still-open transaction', m.path, f.lineno)
+        tries = [t for t in ast.walk(f) if isinstance(t, ast.Try) and flow.executes(k, ast.Module(body=t.body, type_ignores=[]))]
+        bad: List[Tuple[ast.Try, str]] = []
+        for t in tries:
+            for h in t.handlers:
+                if not flow.always_raises(k, h.body) and not _stored_then_raised(m, t, h):
+                    bad.append((t, f'the handler `except {pf.nsrc(h.type) if h.type is not None else ""}` (line {h.lineno}) has a path that does not re-raise' + _nonraising_witness(m, t, h, tb)))
+                    break
+            fin = _swallowing_finally(t)
+            if fin is not None:
+                bad.append((t, f'`{pf.nsrc(fin)}` in its `finally` (line {fin.lineno}) discards the exception in flight'))
+        for w in ast.walk(f):
+            if isinstance(w, (ast.With, ast.AsyncWith)) and any(isinstance(i.context_expr, ast.Call) and (pf.dotted(i.context_expr.func) or '').split('.')[-1] == 'suppress' for i in w.items) \
+                    and flow.executes(k, ast.Module(body=w.body, type_ignores=[])):
+                bad.append((w, f'`with {pf.nsrc(w.items[0].context_expr)}` suppresses the error of the statement'))  # type: ignore[arg-type]
+        ctx.check(not bad, 'R5', cons + '::statement failure aborts', f'{n}: the block at line {bad[0][0].lineno if bad else 0} encloses a statement execution and {bad[0][1] if bad else ""}: a failed '
+                  'statement is swallowed or re-issued inside the still-open transaction (after a deadlock InnoDB has already rolled the whole transaction back: the statements before it are lost, '
+                  'the re-issued one and those after it are committed, and the caller sees success)', m.path, f.lineno)
+    # a cursor / bound execute method handed to code outside this module cannot be followed
+    for k, c, what in flow.escapes:
+        if k not in reach and not (k[0] == 'm'):
+            continue
+        callee = (pf.dotted(c.func) or pf.nsrc(c.func)).split('.')[-1]
+        if callee in BACKOFF_NAMES or (what == 'cursor' and callee in BENIGN_CURSOR_CALLEES):
+            continue
+        raise AnalysisError(f'{flow.label(k)}: `{pf.nsrc(c)[:100]}` hands a cursor / statement-executing callable to `{pf.nsrc(c.func)}`, which is not defined in {DB}')
 
 
 def r6(ctx: Ctx, m: pf.Module) -> None:
@@ -477,14 +556,106 @@ class _Tables:
         self.names = {'operational_error_retry_codes': 'OperationalError', 'internal_error_retry_codes': 'InternalError'}
 
 
-def _atom_value(m: pf.Module, a: ast.AST, nm: Optional[str], k: Tuple[str, bool], tb: _Tables) -> Optional[bool]:
-    """Value of a handler test atom on the abstract caught exception k, None = not determined by k (free boolean)."""
+ERRTEXT = {1213: 'Deadlock found when trying to get lock', 1205: 'Lock wait timeout exceeded', 1040: 'Too many connections', 2003: "Can't connect to MySQL server", 2013: 'Lost connection to MySQL server during query',
+           1317: 'Query execution was interrupted', 1030: 'Got error 28 from storage engine', 1062: 'Duplicate entry', 1064: 'You have an error in your SQL syntax', 1146: "Table doesn't exist"}
+CLASSIFIER = 'exception_log_level_if_retryable'
+
+
+def _mod_of(m: pf.Module, a: ast.AST) -> pf.Module:
+    """Atoms that come from an inlined predicate helper are resolved in the module that defines the helper."""
+    return getattr(a, cf.MOD_ATTR, m)
+
+
+def _code_set(m: pf.Module, op: ast.cmpop, right: ast.expr, tb: _Tables) -> Optional[Set[int]]:
+    """The set S of error codes such that `exc.args[0] <op> right` is `code in S` (Eq/In) resp. `code not in S` (NotEq/NotIn)."""
+    if isinstance(op, (ast.Eq, ast.NotEq)):
+        if isinstance(right, ast.Constant) and isinstance(right.value, int) and not isinstance(right.value, bool):
+            return {right.value}
+        return None
+    if isinstance(op, (ast.In, ast.NotIn)):
+        cs = _int_tuple(right)
+        if cs is not None:
+            return cs
+        d = pf.dotted(right)
+        if d is None:
+            return None
+        last = d.split('.')[-1]
+        if '.' not in d:
+            try:
+                cs = _int_tuple(m.global_assign(d))
+            except AnalysisError:
+                cs = None
+            if cs is not None:
+                return cs
+        if last in tb.names:
+            return set(tb.codes[tb.names[last]])
+    return None
+
+
+def _code_test(a: ast.AST, nm: str) -> Optional[Tuple[ast.cmpop, ast.expr]]:
+    if isinstance(a, ast.NamedExpr):
+        a = a.value
+    if isinstance(a, ast.Compare) and len(a.ops) == 1:
+        left = a.left.value if isinstance(a.left, ast.NamedExpr) else a.left
+        if pf.nsrc(left) == f'{nm}.args[0]':
+            return a.ops[0], a.comparators[0]
+    return None
+
+
+def _mentioned_codes(m: pf.Module, atoms: List[ast.AST], nm: Optional[str], tb: _Tables) -> Set[int]:
+    out: Set[int] = set()
+    if nm is None:
+        return out
+    for a in atoms:
+        ct = _code_test(a, nm)
+        if ct is not None:
+            cs = _code_set(_mod_of(m, a), ct[0], ct[1], tb)
+            if cs is not None:
+                out |= cs
+    return out
+
+
+def _refine(kinds: Set, mentioned: Set[int], tb: _Tables) -> List[Tuple]:
+    """Abstract error kinds (class, accepted by the classifier, code): every code a test of the handler mentions is its own class, the
+    remaining codes of a class fall into `retryable, not mentioned` / `not retryable, not mentioned` (code None)."""
+    out: List[Tuple] = []
+    for b in KINDS:
+        if b not in kinds:
+            continue
+        if b[0] in tb.codes:
+            table = tb.codes[b[0]]
+            for c in sorted(mentioned):
+                if (c in table) == b[1]:
+                    out.append((b[0], b[1], c))
+            if not b[1] or (table - mentioned):
+                out.append((b[0], b[1], None))
+        else:
+            out.append((b[0], b[1], None))
+    return out
+
+
+def _witness(k: Tuple, tb: _Tables, mentioned: Set[int]) -> str:
+    if k[0] in tb.codes:
+        code = k[2] if len(k) > 2 else None
+        if code is None:
+            table = tb.codes[k[0]]
+            pool = [c for c in (1213, 1205, 2013, 1040, 2003) + tuple(sorted(table)) if c in table] if k[1] else [c for c in (1317, 1030, 1064, 1146, 1105, 1792) if c not in table]
+            pool = [c for c in pool if c not in mentioned]
+            code = pool[0] if pool else None
+        if code is not None:
+            return f'pymysql.err.{k[0]}({code}, "{ERRTEXT.get(code, "...")}")'
+    return WITNESS[(k[0], k[1])]
+
+
+def _atom_value(m: pf.Module, a: ast.AST, nm: Optional[str], k: Tuple, tb: _Tables) -> Optional[bool]:
+    """Value of a handler test atom on the abstract caught exception k = (class, retryable, code | None), None = not determined by k (free boolean)."""
+    m = _mod_of(m, a)
     if isinstance(a, ast.NamedExpr):
         a = a.value
     if nm is None:
         return None
-    cl = f'exception_log_level_if_retryable({nm})'
-    if pf.nsrc(a) == cl:
+    cl = f'{CLASSIFIER}({nm})'
+    if pf.nsrc(a) == cl or (isinstance(a, ast.Call) and len(a.args) == 1 and not a.keywords and pf.nsrc(a.args[0]) == nm and (pf.dotted(a.func) or '').split('.')[-1] == CLASSIFIER):
         return k[1]
     if isinstance(a, ast.Compare) and len(a.ops) == 1:
         left, op, right = a.left, a.ops[0], a.comparators[0]
@@ -493,31 +664,21 @@ def _atom_value(m: pf.Module, a: ast.AST, nm: Optional[str], k: Tuple[str, bool]
         if pf.nsrc(left) == cl and isinstance(right, ast.Constant) and right.value is None and isinstance(op, (ast.Is, ast.IsNot, ast.Eq, ast.NotEq)):
             return (not k[1]) if isinstance(op, (ast.Is, ast.Eq)) else k[1]
         if pf.nsrc(left) == f'{nm}.args[0]' and k[0] in tb.codes:
-            table = tb.codes[k[0]]
-            neg = isinstance(op, (ast.NotEq, ast.NotIn))
-            res: Optional[bool] = None
-            if isinstance(op, (ast.Eq, ast.NotEq)) and isinstance(right, ast.Constant) and isinstance(right.value, int):
-                res = False if (right.value in table) != k[1] else None
-            elif isinstance(op, (ast.In, ast.NotIn)):
-                cs = _int_tuple(right)
-                if cs is not None:
-                    if k[1] and not (cs & table):
-                        res = False
-                    elif not k[1] and cs <= table:
-                        res = False
-                elif isinstance(right, ast.Name) and tb.names.get(right.id) == k[0]:
-                    res = k[1]
-            if res is None:
+            cs = _code_set(m, op, right, tb)
+            if cs is None:
                 return None
-            return (not res) if neg else res
+            code = k[2] if len(k) > 2 else None
+            # code None: some code no test of the handler mentions (every resolvable comparator set is part of `mentioned`)
+            res = (code in cs) if code is not None else False
+            return (not res) if isinstance(op, (ast.NotEq, ast.NotIn)) else res
     if isinstance(a, ast.Call) and pf.dotted(a.func) == 'isinstance' and len(a.args) == 2 and pf.nsrc(a.args[0]) == nm:
         tk = _type_kinds(m, a.args[1])
         if tk is None:
             return None
         may, full = tk
-        if k not in may:
+        if (k[0], k[1]) not in may:
             return False
-        if k in full:
+        if (k[0], k[1]) in full:
             return True
     return None
 
@@ -539,12 +700,15 @@ def _raised_retryable(m: pf.Module, e: ast.expr, tb: _Tables) -> Optional[bool]:
     return None
 
 
-def _handler_verdict(m: pf.Module, tr: ast.Try, h: ast.ExceptHandler, tb: _Tables) -> Tuple[str, str]:
-    """('ok'|'bad', text).  Raises AnalysisError when the handler cannot be decided."""
+class _Row:
+    """One row of a handler's truth table: abstract error kind x valuation of the undetermined tests -> outcome."""
+    def __init__(self, k: Tuple, full: Dict[str, bool], outcome: absdom.Outcome, free_mentions: List[str]):
+        self.k, self.full, self.outcome, self.free_mentions = k, full, outcome, free_mentions
+
+
+def _handler_table(m: pf.Module, tr: ast.Try, h: ast.ExceptHandler, tb: _Tables) -> Tuple[List[_Row], Set[int], int, List[str]]:
+    """(rows, codes mentioned, number of test atoms, predicate helpers inlined).  Raises AnalysisError when the handler cannot be tabulated."""
     tk = _type_kinds(m, h.type) if h.type is not None else (frozenset(KINDS), frozenset(KINDS))
-    pure = all(isinstance(s, ast.Raise) and s.exc is None for s in h.body)
-    if pure:
-        return 'ok', 're-raises unchanged'
     if tk is None:
         raise AnalysisError(f'handler `except {pf.nsrc(h.type)}` at line {h.lineno}: exception class not resolved')
     kinds = set(tk[0])
@@ -555,11 +719,13 @@ def _handler_verdict(m: pf.Module, tr: ast.Try, h: ast.ExceptHandler, tb: _Table
         if pk is not None:
             kinds -= pk[1]
     nm = h.name
-    atoms = absdom.collect_test_atoms(h.body)
-    stores = [s for s in ast.walk(ast.Module(body=h.body, type_ignores=[])) if isinstance(s, (ast.Assign, ast.AnnAssign, ast.AugAssign)) and nm and s.value is not None and nm in pf.names_in(s.value)]
-    problems: List[str] = []
-    undecidable: List[str] = []
-    for k in [x for x in KINDS if x in kinds]:
+    body0, inlined0 = cf.inline_handler_helpers(m, h)
+    body, inlined = cf.inline_handler_tests(m, body0, nm, keep=(CLASSIFIER,))
+    inlined = inlined0 + inlined
+    atoms = absdom.collect_test_atoms(body)
+    mentioned = _mentioned_codes(m, atoms, nm, tb)
+    rows: List[_Row] = []
+    for k in _refine(kinds, mentioned, tb):
         det = {absdom.atom_key(a): _atom_value(m, a, nm, k, tb) for a in atoms}
         free = [key for key, v in det.items() if v is None]
         if len(free) > 8:
@@ -568,41 +734,78 @@ def _handler_verdict(m: pf.Module, tr: ast.Try, h: ast.ExceptHandler, tb: _Table
         for val in absdom.valuations(free):
             full = dict(det)
             full.update(val)
-            o = absdom.walk_block(h.body, lambda a, full=full: bool(full[absdom.atom_key(a)]))
-            why = None
-            if o.kind == 'raise':
-                ex = o.node.exc
-                same = ex is None or (isinstance(ex, ast.Name) and ex.id == nm) or \
-                    (isinstance(ex, ast.Call) and isinstance(ex.func, ast.Attribute) and ex.func.attr == 'with_traceback' and isinstance(ex.func.value, ast.Name) and ex.func.value.id == nm)
-                if same:
+            o = absdom.walk_block(body, lambda a, full=full: bool(full[absdom.atom_key(a)]))
+            rows.append(_Row(k, {key: bool(v) for key, v in full.items()}, o, free_mentions))
+    return rows, mentioned, len(atoms), inlined
+
+
+def _path_text(full: Dict[str, bool]) -> str:
+    cond = [f'{key}={v}' for key, v in full.items()]
+    return f' [path: {", ".join(cond)}]' if cond else ''
+
+
+def _nonraising_witness(m: pf.Module, tr: ast.Try, h: ast.ExceptHandler, tb: _Tables) -> str:
+    """Text naming an abstract error for which the handler ends without raising (for messages only; '' when the table cannot be built)."""
+    try:
+        rows, mentioned, _, _ = _handler_table(m, tr, h, tb)
+    except AnalysisError:
+        return ''
+    quiet = [r for r in rows if r.outcome.kind != 'raise']
+    if not quiet:
+        return ''
+    # prefer a row that the tests decide, and a deadlock (the case in which InnoDB rolls the whole transaction back)
+    quiet.sort(key=lambda r: (bool(r.free_mentions), not (len(r.k) > 2 and r.k[2] == 1213), not r.k[1]))
+    r = quiet[0]
+    return f': {_witness(r.k, tb, mentioned)} raised by the statement leaves the handler by `{r.outcome.kind}`' + _path_text(r.full)
+
+
+def _handler_verdict(m: pf.Module, tr: ast.Try, h: ast.ExceptHandler, tb: _Tables) -> Tuple[str, str]:
+    """('ok'|'bad', text).  Raises AnalysisError when the handler cannot be decided."""
+    pure = all(isinstance(s, ast.Raise) and s.exc is None for s in h.body)
+    if pure:
+        return 'ok', 're-raises unchanged'
+    nm = h.name
+    rows, mentioned, n_atoms, inlined = _handler_table(m, tr, h, tb)
+    stores = [s for s in ast.walk(ast.Module(body=h.body, type_ignores=[])) if isinstance(s, (ast.Assign, ast.AnnAssign, ast.AugAssign)) and nm and s.value is not None and nm in pf.names_in(s.value)]
+    problems: List[str] = []
+    undecidable: List[str] = []
+    for row in rows:
+        k, o = row.k, row.outcome
+        why = None
+        wit = _witness(k, tb, mentioned)
+        if o.kind == 'raise':
+            ex = o.node.exc
+            same = ex is None or (isinstance(ex, ast.Name) and ex.id == nm) or \
+                (isinstance(ex, ast.Call) and isinstance(ex.func, ast.Attribute) and ex.func.attr == 'with_traceback' and isinstance(ex.func.value, ast.Name) and ex.func.value.id == nm)
+            if same:
+                continue
+            r = _raised_retryable(m, ex, tb)
+            if r is None:
+                undecidable.append(f'`{pf.nsrc(o.node)[:90]}`: cannot tell whether the classifier accepts the raised exception')
+                continue
+            if r and not k[1]:
+                why = (f'{wit} raised inside the `try` is replaced by `{pf.nsrc(ex)[:110]}`, which the classifier accepts: an error that is not a deadlock / lock-wait timeout / lost connection / '
+                       'connection limit is retried (with unbounded back-off) and never reported to the caller')
+            elif not r and k[1]:
+                why = (f'{wit} raised inside the `try` is replaced by `{pf.nsrc(ex)[:110]}`, which the classifier rejects: the transient error is reported to the caller instead of the '
+                       'transaction being retried')
+        else:
+            if k[1]:
+                if stores and o.kind == 'fall':
+                    undecidable.append(f'the handler stores `{nm}` and falls through; a later re-raise is not tracked')
                     continue
-                r = _raised_retryable(m, ex, tb)
-                if r is None:
-                    undecidable.append(f'`{pf.nsrc(o.node)[:90]}`: cannot tell whether the classifier accepts the raised exception')
-                    continue
-                if r and not k[1]:
-                    why = (f'{WITNESS[k]} raised inside the `try` is replaced by `{pf.nsrc(ex)[:110]}`, which the classifier accepts: an error that is not a deadlock / lock-wait timeout / lost connection / '
-                           'connection limit is retried (with unbounded back-off) and never reported to the caller')
-                elif not r and k[1]:
-                    why = (f'{WITNESS[k]} raised inside the `try` is replaced by `{pf.nsrc(ex)[:110]}`, which the classifier rejects: the transient error is reported to the caller instead of the '
-                           'transaction being retried')
+                why = (f'{wit} raised inside the `try` is swallowed (handler path ends in `{o.kind}`): the transient error neither reaches the retry wrapper nor aborts the attempt')
+        if why is not None:
+            if row.free_mentions:
+                undecidable.append(f'verdict depends on tests of `{nm}` that are not interpreted: {row.free_mentions}')
             else:
-                if k[1]:
-                    if stores and o.kind == 'fall':
-                        undecidable.append(f'the handler stores `{nm}` and falls through; a later re-raise is not tracked')
-                        continue
-                    why = (f'{WITNESS[k]} raised inside the `try` is swallowed (handler path ends in `{o.kind}`): the transient error neither reaches the retry wrapper nor aborts the attempt')
-            if why is not None:
-                if free_mentions:
-                    undecidable.append(f'verdict depends on tests of `{nm}` that are not interpreted: {free_mentions}')
-                else:
-                    cond = [f'{key}={v}' for key, v in full.items()]
-                    problems.append(why + (f' [path: {", ".join(cond)}]' if cond else ''))
+                problems.append(why + _path_text(row.full))
     if undecidable and not problems:
         raise AnalysisError(f'handler `except {pf.nsrc(h.type) if h.type else ""}` at line {h.lineno}: ' + undecidable[0])
     if problems:
         return 'bad', problems[0]
-    return 'ok', f'{len(kinds)} abstract error kinds x {len(atoms)} tests: retryability preserved on every path'
+    n_kinds = len({r.k for r in rows})
+    return 'ok', f'{n_kinds} abstract error kinds x {n_atoms} tests' + (f' (helpers inlined: {sorted(set(inlined))})' if inlined else '') + ': retryability preserved on every path'
 
 
 def _handler_sites(m: pf.Module, fns: List[Tuple[str, pf.FuncDef]]) -> List[Tuple[str, pf.FuncDef, ast.Try, ast.ExceptHandler, str]]:
@@ -716,9 +919,9 @@ def run(ctx: Ctx) -> None:
     ctx.rule('R2', 'retry wrapper encloses the transaction everywhere; no retried function takes an open Transaction; generators not retried', 24)
     ctx.rule('R3', 'Transaction exit: rollback on exception else commit, release in finally, shielded, errors propagate; autocommit off', 7)
     ctx.rule('R4', 'procedures: balanced transactions, no transaction statements in nested callees/triggers/functions; no implicit commit after a write on an open Transaction', 36)
-    ctx.rule('R5', 'inside Transaction a failing statement aborts the transaction: no handler swallows/re-issues, no retry decorator, no back-off', 21)
+    ctx.rule('R5', 'inside Transaction a failing statement aborts the transaction (seen through execute helpers that receive the cursor / bound method): no handler, finally-return or suppress swallows/re-issues, no retry decorator, no back-off', 21)
     ctx.rule('R6', 'every Database operation opens exactly one transaction per call, never in a loop; execute_many forwards its whole array', 10)
-    ctx.rule('R7', 'DB layer: every handler between the retry wrapper and the statements preserves the retryability of the caught error (abstract domain class x code-in-table); no fabricated transient errors', 3)
+    ctx.rule('R7', 'DB layer: every handler between the retry wrapper and the statements preserves the retryability of the caught error (abstract domain class x error code, predicate helpers inlined); no fabricated transient errors', 3)
     ctx.rule('R8', 'application code inside a retried transaction: handlers neither turn a transient error into a non-retryable one nor the reverse, nor swallow it', 5)
     m = pf.load(DB)
     r1(ctx, m)
